@@ -33,12 +33,14 @@ CONF_FILES = [
     "Transport/RawConformFrame.v",
     "Transport/RawConformHandshake.v",
     "Transport/RawConformDiscipline.v",
+    "Transport/RawConformWs.v",
 ]
 GEN_V = os.path.join(common.COQ, "gen", "GenC15.v")
 
 SIG_RESERVED = "rawsocket recvHandler: frame of reserved type 3..7 is not rejected (nil message delivered / router panics)"
 SIG_LEN24 = "rawsocket sendHandler: message of exactly 2^24 bytes is framed with length 0 and corrupts the stream"
 SIG_INTERLEAVE = "rawsocket: PONG written by recvHandler between the header and body Writes of sendHandler"
+SIG_WS_UNSER = "websocket sender loop: a message the codec cannot encode is not dropped alone (later messages lost or disturbed)"
 
 SERS = [("json", 1), ("msgpack", 2), ("cbor", 3)]
 
@@ -82,7 +84,7 @@ def build_models(all_built=False):
     okg, logg = True, ""
     if not all_built:
         # definition files (no proofs) must be compiled
-        defs = ["Transport/RawSpec.vo", "Transport/RawHandshakeSpec.vo", "Transport/PeerDiscipline.vo"]
+        defs = ["Transport/RawSpec.vo", "Transport/RawHandshakeSpec.vo", "Transport/PeerDiscipline.vo", "Transport/WsPeer.vo"]
         ok, log = common.coq_make(defs, timeout=900)
         if not ok:
             res["log"] += log[-2000:]
@@ -99,7 +101,7 @@ def build_models(all_built=False):
                                 (open(GEN_V).read() if name == "c15model" else "") +
                                 "".join(open(os.path.join(common.COQ, "Transport", f)).read()
                                         for f in ("RawFrame.v", "RawSpec.v", "RawHandshakeSpec.v", "PeerDiscipline.v",
-                                                  "RawGen.v", "GoArith.v", "RawOps.v"))).encode()).hexdigest()
+                                                  "RawGen.v", "GoArith.v", "RawOps.v", "WsPeer.v"))).encode()).hexdigest()
             binp = os.path.join(d, "bin", name)
             stamp = binp + ".key"
             if os.path.exists(binp) and os.path.exists(stamp) and open(stamp).read() == key:
@@ -264,8 +266,13 @@ class Case:
             return o
         if k == "ping_hold":
             return {"wires": sorted(x.strip() for x in mo.split("|"))}
-        if k in ("send_unser", "ws_peer"):
+        if k == "send_unser":
             return {"text": self.kw["want"]}
+        if k == "ws_peer":
+            d = kv(mo)
+            n = 0 if d.get("sent") == "-" else len(d.get("sent", "").split(","))
+            t = "text" if self.kw["ser"] == "json" else "binary"
+            return {"sent": d.get("sent"), "types": ",".join([t] * n) or "-", "recv_ok": "true"}
         if k == "arith":
             return {"text": mo}
         return {"_": "unknown kind"}
@@ -311,8 +318,11 @@ class Case:
             else:
                 o["closed"] = d.get("closed")
             return o
-        if k in ("limits_server", "limits_client", "send_unser", "ws_peer"):
+        if k in ("limits_server", "limits_client", "send_unser"):
             return {"text": io}
+        if k == "ws_peer":
+            d = kv(io)
+            return {"sent": d.get("sent"), "types": d.get("types"), "recv_ok": d.get("recv_ok")}
         if k == "recv":
             d = kv(io)
             if d.get("hs") != "ok" or d.get("rd_closed") != "true":
@@ -367,6 +377,9 @@ def classify(case, obs, spec_exp):
         m = re.search(r"16777216:(sent:00000000|garbled)", obs.get("text", ""))
         if m:
             return SIG_LEN24, "a serialized message of 2^24 bytes passes the send limit test and is framed with length 0"
+    if k == "ws_peer" and obs.get("sent") != (spec_exp or {}).get("sent"):
+        return SIG_WS_UNSER, "websocket peer (%s sender loop): queue %s, messages written: %s, expected: %s" % (
+            "keep-alive" if case.kw.get("ka") else "plain", (case.impl or "").split(" ")[-1], obs.get("sent"), (spec_exp or {}).get("sent"))
     if k == "ping_hold":
         return SIG_INTERLEAVE, "a PING answered while a message frame is being written puts the PONG between the frame's header and body"
     # anything else: one signature per kind and differing observable
@@ -548,9 +561,10 @@ def make_cases(tier, rng, wide):
     # --- unserialisable messages, websocket peer
     for sname, _ in SERS:
         add("send_unser", "send_unser %s" % sname, None, want="hs=ok frames=sentinel")
-        t = "text" if sname == "json" else "binary"
-        add("ws_peer", "ws_peer %s" % sname, None,
-            want="send_ok=true writes=2 types=%s,%s recv_ok=true delivered=2 rd_closed=true" % (t, t))
+        # websocket peer, plain and keep-alive sender loop, queues with messages the codec cannot encode (B)
+        for ka in (0, 1):
+            for pat in (("GBG", "BGG", "GGBBG", "GGG") if not wide else ("GBG", "BGG", "GGBBG", "GGG", "B", "BBG", "GBGBGB")):
+                add("ws_peer", "ws_peer %s %d %s" % (sname, ka, pat), "ws_send %d %s" % (ka, pat), ser=sname, ka=ka)
 
     # --- arithmetic (generated model against the reference only: the Go functions are unexported)
     vals = set()
@@ -672,7 +686,21 @@ def run_kernel_sample(rows, limit):
     return rc == 0, n, out[-1500:]
 
 
-SCENARIOS = [("local", "none")] + [("rawsocket", s) for s, _ in SERS] + [("websocket", s) for s, _ in SERS]
+SCENARIOS = ([("local", "none")] + [("rawsocket", s) for s, _ in SERS] + [("websocket", s) for s, _ in SERS]
+             + [("websocket-ka", s) for s, _ in SERS])
+# scenario: routing (subscribe/publish/register/call/yield, unserialisable messages in between);
+# scenario_meta: pattern watchers over the subscription/registration/session meta topics
+SCEN_KINDS = ("scenario", "scenario_meta")
+
+
+def run_scenarios(harness, kind, seed):
+    lines = ["s%d %s %s %s %d" % (i, kind, t, s, seed) for i, (t, s) in enumerate(SCENARIOS)]
+    out = run_impl(harness, lines, shards=min(len(lines), common.NPROC))
+    return [out.get("s%d" % i) for i in range(len(SCENARIOS))]
+
+
+def scen_equal(grp):
+    return all(x is not None and x.startswith("obs=") for x in grp) and len(set(grp)) == 1
 
 
 # --------------------------------------------------------------------------
@@ -697,7 +725,8 @@ def evaluate(cases, bins, harness, info):
     ilines = [c.id + " " + c.impl for c in cases if c.impl]
     clines = ["k%05d canon %s %s" % (i, s, b) for i, (s, b) in enumerate(want)]
     seeds = info or [0]
-    slines = ["s%d_%d scenario %s %s %d" % (j, i, t, s, sd) for j, sd in enumerate(seeds) for i, (t, s) in enumerate(SCENARIOS)]
+    slines = ["s%s_%d_%d %s %s %s %d" % (k, j, i, k, t, s, sd) for k in SCEN_KINDS for j, sd in enumerate(seeds)
+              for i, (t, s) in enumerate(SCENARIOS)]
     impl_out = run_impl(harness, ilines + clines + slines)
     canon = {}
     for i, (s, b) in enumerate(want):
@@ -717,7 +746,8 @@ def evaluate(cases, bins, harness, info):
             bad_t = ge is not None and not agree(c, ge, obs)
         rows.append(dict(case=c, spec=sp, gen=ge, obs=obs, bad_monitor=bad_m, bad_tie=bad_t,
                          raw=dict(model=gen_out.get(c.id), spec=spec_out.get(c.id), impl=impl_out.get(c.id) if c.impl else None)))
-    scen = [[impl_out.get("s%d_%d" % (j, i)) for i in range(len(SCENARIOS))] for j in range(len(seeds))]
+    scen = [(k, seeds[j], [impl_out.get("s%s_%d_%d" % (k, j, i)) for i in range(len(SCENARIOS))])
+            for k in SCEN_KINDS for j in range(len(seeds))]
     return rows, scen
 
 
@@ -782,19 +812,42 @@ def replay_obj(row, tier):
     }
 
 
+def scen_diff(a, b):
+    """Readable difference of two scenario observation lines."""
+    if not (a or "").startswith("obs=") or not (b or "").startswith("obs="):
+        return ["%s  VERSUS  %s" % ((a or "")[:300], (b or "")[:300])]
+    x, y = json.loads(a[4:]), json.loads(b[4:])
+    out = []
+    for k in sorted(set(x) | set(y)):
+        u, w = x.get(k) or [], y.get(k) or []
+        if u == w:
+            continue
+        if k.endswith("events"):
+            only_a = [e for e in u if e not in w]
+            only_b = [e for e in w if e not in u]
+            out.append("%s: only first %s / only second %s" % (k, only_a[:4], only_b[:4]))
+        else:
+            for i in range(max(len(u), len(w))):
+                p, q = (u[i] if i < len(u) else None), (w[i] if i < len(w) else None)
+                if p != q:
+                    out.append("%s[%d]: %s  VERSUS  %s" % (k, i, json.dumps(p, ensure_ascii=False)[:300], json.dumps(q, ensure_ascii=False)[:300]))
+                    break
+    return out
+
+
 def do_replay(path, bins, harness):
     obj = json.load(open(path))
     print("replay %s" % path)
     print("  what: %s" % obj.get("what", obj.get("obligation", "")))
-    if obj.get("kind") == "scenario":
+    if obj.get("kind") in SCEN_KINDS:
         sd = obj.get("payload_seed", 0)
-        lines = ["s%d scenario %s %s %d" % (i, t, s, sd) for i, (t, s) in enumerate(SCENARIOS)]
-        out = run_impl(harness, lines, shards=1)
-        res = [out.get("s%d" % i) for i in range(len(SCENARIOS))]
-        for i, (t, s) in enumerate(SCENARIOS):
-            print("  %-18s %s" % (t + "/" + s, (res[i] or "")[:300]))
-        bad = not (all(x and x.startswith("obs=") for x in res) and len(set(res)) == 1)
-        print("  verdict: %s" % ("FAILS (observations differ)" if bad else "passes (all 7 observations equal)"))
+        res = run_scenarios(harness, obj["kind"], sd)
+        print("  %s, seed %d: per attachment, what differs from %s/%s" % ((obj["kind"], sd) + SCENARIOS[0]))
+        print("  %-20s %s" % ("%s/%s" % SCENARIOS[0], (res[0] or "")[:400]))
+        for i in range(1, len(SCENARIOS)):
+            print("  %-20s %s" % ("%s/%s" % SCENARIOS[i], "same" if res[i] == res[0] else "; ".join(scen_diff(res[0], res[i]))[:1500]))
+        bad = not scen_equal(res)
+        print("  verdict: %s" % ("FAILS (observations differ)" if bad else "passes (all %d observations equal)" % len(SCENARIOS)))
         return bad
     if not obj.get("impl_case") and not obj.get("model_case"):
         print("  (no concrete input recorded: %s)" % json.dumps(obj.get("failed", ""))[:600])
@@ -905,22 +958,35 @@ def main(tier, replay):
         obj["cases_with_this_signature"] = e["count"]
         v.finding(sig, obj, e["what"], tag="input")
 
-    # interchangeability: for every payload seed the 7 observations must be equal
+    # interchangeability: for every scenario kind and payload seed the observations
+    # over all attachments must be equal (a difference is re-run once: a defect
+    # of the code is deterministic, a hiccup of a loaded machine is not)
     scen_ok = True
-    for j, grp in enumerate(scen):
-        ok = all(x is not None and x.startswith("obs=") for x in grp) and len(set(grp)) == 1
-        if ok:
+    reported = set()
+    for (kind, sd, grp) in scen:
+        if scen_equal(grp):
+            continue
+        grp = run_scenarios(harness, kind, sd)
+        if scen_equal(grp):
+            common.info("C15: %s seed %d differed once and agreed on the re-run" % (kind, sd))
             continue
         scen_ok = False
         groups = {}
         for i, x in enumerate(grp):
             groups.setdefault(x, []).append("%s/%s" % SCENARIOS[i])
-        diff = {"%s/%s" % SCENARIOS[i]: (grp[i] or "")[:6000] for i in range(len(SCENARIOS))}
-        v.finding("C15:interchangeability:" + ";".join(sorted(",".join(g) for g in groups.values())),
-                  {"property": PID, "kind": "scenario", "repo": common.REPO, "payload_seed": seeds[j], "observations": diff,
-                   "groups": sorted(groups.values())},
-                  "the routing scenario is observed differently over different transports / serializers", tag="scenario")
-        break
+        sig = "C15:interchangeability:%s:%s" % (kind, ";".join(sorted(",".join(g) for g in groups.values())))
+        if sig in reported:
+            continue
+        reported.add(sig)
+        ref = grp[0]
+        diff = {"%s/%s" % SCENARIOS[i]: scen_diff(ref, grp[i]) for i in range(1, len(SCENARIOS)) if grp[i] != ref}
+        v.finding(sig,
+                  {"property": PID, "kind": kind, "repo": common.REPO, "payload_seed": sd,
+                   "differs_from_%s/%s" % SCENARIOS[0]: diff, "groups": sorted(groups.values()),
+                   "observations": {"%s/%s" % SCENARIOS[i]: (grp[i] or "")[:20000] for i in range(len(SCENARIOS))}},
+                  "the %s is observed differently depending on how the sessions are attached: %s"
+                  % ("routing scenario" if kind == "scenario" else "meta-event scenario (pattern watchers over wamp.subscription./registration./session.)",
+                     "; ".join("%s: %s" % (k, " | ".join(d)[:300]) for k, d in list(diff.items())[:2])), tag="scenario")
 
     # obligations / tie without a failing input
     bad_hyg = [h for h in common.hygiene_scan() if h.startswith(("Transport/", "Props/C15.v", "gen/GenC15.v"))]
@@ -997,7 +1063,7 @@ def _evidence(tier, T, r, v, rows, scen, gen_ok, seen, searched, kern_n=0, chk=N
         shown.add(c.kind)
         samples.append({"kind": c.kind, "implementation_case": c.impl, "model_case": c.model,
                         "reference_expects": x["spec"], "observed": x["obs"]})
-    flat = [x for grp in scen for x in grp if x]
+    flat = [x for (_, _, grp) in scen for x in grp if x]
     if flat:
         samples.append({"kind": "scenario", "combinations": ["%s/%s" % s for s in SCENARIOS],
                         "observation": flat[0][:1500]})
@@ -1023,8 +1089,9 @@ def _evidence(tier, T, r, v, rows, scen, gen_ok, seen, searched, kern_n=0, chk=N
         "exhaustive": bool(rows) and not searched,
         "exhaustive_subspaces": "server handshake: buf[1] in 0..255 x 4 reserved-byte patterns x 2 configured limits; client handshake: reply byte 1 in 0..255 x 3 protocols x 2 limits; frame types 0..7 x 3 upper-bit patterns x 3 serializers",
         "scenario_runs": len(flat),
-        "scenario_payload_seeds": len(scen),
-        "scenarios_equal": bool(scen) and all(len(set(g)) == 1 for g in scen),
+        "scenario_groups_kind_x_seed": len(scen),
+        "scenario_kinds": list(SCEN_KINDS),
+        "scenarios_equal": bool(scen) and all(len(set(g)) == 1 for (_, _, g) in scen),
         "findings": {sig: {"what": e["what"], "cases": e["count"]} for sig, e in seen.items()},
         "known_findings_reported": v.known,
         "wide_search_run": searched,
